@@ -51,6 +51,10 @@ def run(W, chk):
         chk.expect(const_of(cc[0].extra["dargs"][5]) == "true" and const_of(qc[0].extra["dargs"][5]) == "false", "AGREE-claim-query", "is_claim",
                    "claim passes true, query false", "is_claim flags: %s / %s" % (show(cc[0].extra["dargs"][5]), show(qc[0].extra["dargs"][5])), where(cc[0]))
 
+    from rules.C06 import uniq_denoms
+    uniq_denoms(chk, A, "Claim")
+    uniq_denoms(chk, Q, "Rewards")
+
     # ---- non-interference on is_claim
     fid = "farm_manager::farm::commands::calculate_rewards"
     T = W.run_fn(fid, args={5: V("Const(true)")})
